@@ -293,7 +293,7 @@ func init() {
 			if taken[v.kind] >= perKind {
 				continue
 			}
-			if val, _, _ := c18Build(v.kind, unhx(v.hex), atoi(v.aux)); val == nil {
+			if val := genBuild(v.kind, unhx(v.hex), atoi(v.aux)); val == nil {
 				continue
 			}
 			taken[v.kind]++
